@@ -711,8 +711,42 @@ func (f *Frame) execLoop(st *State, label string, n ast.Node, modified []types.O
 	checkInv(st, "init")
 	// 2. arbitrary iteration: havoc modified variables
 	head := st.fork()
+	// A pointer parameter whose contract restricts `modifies` to field paths keeps, as an automatic loop
+	// invariant, its loop-entry value outside those paths: the arbitrary iteration starts from a value
+	// that differs from the loop-entry one only on the paths, and the invariant is checked after the body.
+	type autoFrame struct {
+		o     types.Object
+		entry Val
+		paths [][]string
+	}
+	var autoFrames []autoFrame
+	var mp map[string][][]string
+	if f.top && f.contract != nil && !f.contract.ModifiesAll && f.fn != nil {
+		mp = modPaths(f.contract)
+	}
+	isParam := func(o types.Object) bool {
+		sig := f.fn.Obj.Type().(*types.Signature)
+		if sig.Recv() == o {
+			return true
+		}
+		for i := 0; i < sig.Params().Len(); i++ {
+			if sig.Params().At(i) == o {
+				return true
+			}
+		}
+		return false
+	}
 	for _, o := range modified {
-		if _, ok := head.env[o]; ok {
+		if cur, ok := head.env[o]; ok {
+			if paths := mp[o.Name()]; len(paths) > 0 && isParam(o) {
+				if _, isPtr := cur.Ty.Underlying().(*types.Pointer); isPtr && !isBigInt(cur.Ty) {
+					nv := f.havocPaths(head, cur, paths)
+					nv.Refs = cur.Refs
+					head.env[o] = nv
+					autoFrames = append(autoFrames, autoFrame{o, cur, paths})
+					continue
+				}
+			}
 			if rs, raw := f.c.rawSorts[o]; raw {
 				head.env[o] = Val{T: f.c.fresh(o.Name(), rs)}
 				continue
@@ -721,6 +755,18 @@ func (f *Frame) execLoop(st *State, label string, n ast.Node, modified []types.O
 		}
 	}
 	f.havocGhostInLoop(head, n)
+	if len(f.c.specs.Tracked) > 0 {
+		hasCall := false
+		ast.Inspect(n, func(x ast.Node) bool {
+			if _, ok := x.(*ast.CallExpr); ok {
+				hasCall = true
+			}
+			return !hasCall
+		})
+		if hasCall {
+			f.havocCalls(head)
+		}
+	}
 	assumeInv(head)
 	bc := &breakCtx{label: label, isLoop: true}
 	f.brk = append(f.brk, bc)
@@ -739,6 +785,17 @@ func (f *Frame) execLoop(st *State, label string, n ast.Node, modified []types.O
 		}
 		if merged != nil {
 			checkInv(merged, "step")
+			for _, af := range autoFrames {
+				cur, ok := merged.env[af.o]
+				if !ok || cur.T == af.entry.T {
+					continue
+				}
+				so := f.c.sorts.SortOf(cur.Ty)
+				masked := f.maskPaths(merged, cur, af.entry, af.paths)
+				f.oblige(merged, "loop", fmt.Sprintf("%d:step:frame_%s", ord, af.o.Name()),
+					fmt.Sprintf("(= (%s.val %s) (%s.val %s))", so, masked.T, so, af.entry.T), n.Pos(),
+					fmt.Sprintf("the loop changes *%s only on the contract's modifies paths", af.o.Name()))
+			}
 		}
 	}
 	outs := append([]*State{exit}, bc.breaks...)
